@@ -3,6 +3,7 @@
 import Hw.Io.Xml
 import Hw.Io.Base64
 import Hw.Io.XmlObj
+import Hw.Io.XmlTree
 import Driver.Topo
 namespace Driver.XmlRtEng
 open Hw Hw.Xml Hw.Topo Driver
@@ -29,6 +30,10 @@ structure St where
   xr : List String := []        -- reversed
   bad : Option String := none
   memsets : Bool := false       -- the last CMP verdict was `EQ memsets`
+  te : List (Nat × Hw.XmlTree.Elem) := []                       -- TREE stream, reversed: elements of the real export
+  tos : List (Nat × String × Hw.XmlTree.Node) := []             -- objects of the original
+  trs : List (Nat × String × Hw.XmlTree.Node) := []             -- objects of the reloaded topology
+  tbad : Bool := false
 
 /-- sanitise the `h:` tokens of an X line of the original (strings that go through hwloc__xml_export_safestrdup) -/
 def sanitizeTok (t : String) : String :=
@@ -157,6 +162,124 @@ def judgeObj (root : Bool) (ptype : Nat) (phas : Bool) (tag : List Nat) (fo : Ob
     | .reject, _ => "OBJ FAIL import:reject"
     | .outside, _ => "OBJ FAIL import:outside"
 
+/-! ### tree-level stream -/
+section TreeStream
+open Hw.XmlObj Hw.XmlTree
+
+/-- rebuild a forest from its preorder listing with depths (processed from the end: the entries deeper than an item that follow
+    it are its children) -/
+def buildElems (items : List (Nat × Elem)) : List (Nat × Elem) :=
+  items.foldr (fun (it : Nat × Elem) forest =>
+    let ks := forest.takeWhile (fun x => decide (x.1 > it.1))
+    let rest := forest.dropWhile (fun x => decide (x.1 > it.1))
+    (it.1, Elem.mk it.2.tag it.2.attrs it.2.content (ks.map (·.2))) :: rest) []
+
+def buildTrees (items : List (Nat × String × Node)) : List (Nat × String × Tree) :=
+  items.foldr (fun (it : Nat × String × Node) forest =>
+    let ks := forest.takeWhile (fun x => decide (x.1 > it.1))
+    let rest := forest.dropWhile (fun x => decide (x.1 > it.1))
+    let pick (k : String) := (ks.filter (fun x => x.2.1 == k)).map (·.2.2)
+    (it.1, it.2.1, Tree.mk it.2.2 (pick "m") (pick "n") (pick "i") (pick "x")) :: rest) []
+
+mutual
+def flatElem (d : Nat) : Elem → List (Nat × Bytes × List (Bytes × Bytes) × Option Bytes)
+  | .mk t a c ks => (d, t, a, c) :: flatElems (d + 1) ks
+def flatElems (d : Nat) : List Elem → List (Nat × Bytes × List (Bytes × Bytes) × Option Bytes)
+  | [] => []
+  | e :: es => flatElem d e ++ flatElems d es
+end
+
+mutual
+def flatTree (d : Nat) (k : String) : Tree → List (Nat × String × Node)
+  | .mk n mem nor io misc => (d, k, n) :: (flatTrees (d + 1) "m" mem ++ flatTrees (d + 1) "n" nor ++ flatTrees (d + 1) "i" io ++ flatTrees (d + 1) "x" misc)
+def flatTrees (d : Nat) (k : String) : List Tree → List (Nat × String × Node)
+  | [] => []
+  | t :: ts => flatTree d k t ++ flatTrees d k ts
+end
+
+def parsePairs (n : Nat) (t : List String) : Option (List (Bytes × Bytes) × List String) :=
+  (List.range n).foldlM (fun (acc : List (Bytes × Bytes) × List String) _ =>
+    match acc.2 with
+    | a :: v :: r => do let a ← parseHexBytes a; let v ← parseHexBytes v; pure (acc.1 ++ [(a, v)], r)
+    | _ => none) ([], t)
+
+def parseNats2 (n : Nat) (t : List String) : Option (List (Nat × Nat) × List String) :=
+  (List.range n).foldlM (fun (acc : List (Nat × Nat) × List String) _ =>
+    match acc.2 with
+    | a :: v :: r => do let a ← parseNat a; let v ← parseNat v; pure (acc.1 ++ [(a, v)], r)
+    | _ => none) ([], t)
+
+def parseUds (n : Nat) (t : List String) : Option (List UData × List String) :=
+  (List.range n).foldlM (fun (acc : List UData × List String) _ =>
+    match acc.2 with
+    | nm :: e :: dt :: r => do
+      let nm ← parseHexOpt nm; let dt ← parseHexBytes dt
+      if e ≠ "0" ∧ e ≠ "1" then none else pure (acc.1 ++ [{ name := nm, b64 := e = "1", data := dt }], r)
+    | _ => none) ([], t)
+
+/-- `<depth> <kind> <18 fields> I <n> .. P <n> .. U <n> ..` -/
+def parseTreeObj (t : List String) : Option (Nat × String × Node) :=
+  match t with
+  | d :: k :: rest => do
+    let d ← parseNat d
+    if !(["r", "m", "n", "i", "x"].contains k) then none
+    let f ← parseFields (rest.take 18)
+    match rest.drop 18 with
+    | "I" :: n :: r => do
+      let n ← parseNat n
+      let (infos, r) ← parsePairs n r
+      match r with
+      | "P" :: n :: r => do
+        let n ← parseNat n
+        let (pts, r) ← parseNats2 n r
+        match r with
+        | "U" :: n :: r => do
+          let n ← parseNat n
+          let (uds, r) ← parseUds n r
+          if r ≠ [] then none else pure (d, k, { f := f, infos := infos, pts := pts, uds := uds })
+        | _ => none
+      | _ => none
+    | _ => none
+  | _ => none
+
+/-- what the comparison with the RELOADED topology looks at: the fields the core does not rewrite after the import (`cmpNorm`),
+    infos, page types, and name + bytes of every userdata entry (the callback is not told how the entry was encoded) -/
+def cmpNode (n : Node) : ObjFields × List (Bytes × Bytes) × List (Nat × Nat) × List (Option Bytes × Bytes) :=
+  (cmpNorm n.f, n.infos, n.pts, n.uds.map (fun u => (u.name, u.data)))
+
+def showElem (x : Nat × Bytes × List (Bytes × Bytes) × Option Bytes) : String :=
+  toString x.1 ++ ":" ++ bytesStr x.2.1 ++ "[" ++ ",".intercalate (x.2.2.1.map (fun a => bytesStr a.1 ++ "=" ++ hexOfBytes a.2)) ++ "]" ++
+  (match x.2.2.2 with | some c => "content:" ++ hexOfBytes c | none => "")
+
+def firstDiff {α : Type} [BEq α] (sh : α → String) (xs ys : List α) : String :=
+  match ((xs.zip ys).filter (fun (x, y) => x != y)).head? with
+  | some (x, y) => ((sh x).take 300).toString ++ "/model:" ++ ((sh y).take 300).toString
+  | none => "count:" ++ toString xs.length ++ "/" ++ toString ys.length
+
+def judgeTree (s : St) : String :=
+  if s.tbad then "TREE FAIL unparsable-line"
+  else match buildElems s.te.reverse, buildTrees s.tos.reverse, buildTrees s.trs.reverse with
+    | [(0, e)], [(0, "r", o)], [(0, "r", r)] =>
+      let real := flatElem 0 e
+      let model := flatElem 0 (exportTree true o)
+      if real != model then "TREE FAIL export-tree:" ++ firstDiff showElem real model
+      else if !TreeValid { root := true } o then "TREE FAIL original-not-TreeValid"
+      else match importTree e with
+        | .ok t' =>
+          let ft := flatTree 0 "r" t'
+          if ft != flatTree 0 "r" (normTree o) then "TREE FAIL import-differs-from-normalised-original"
+          else
+            let a := ft.map (fun x => (x.1, x.2.1, cmpNode x.2.2))
+            let b := (flatTree 0 "r" r).map (fun x => (x.1, x.2.1, cmpNode x.2.2))
+            if a == b then "TREE ok"
+            else "TREE FAIL import-differs-from-reloaded:" ++
+              firstDiff (fun (x : Nat × String × _) => toString x.1 ++ x.2.1 ++ ":type" ++ toString x.2.2.1.type ++ ":gp" ++ toString x.2.2.1.gp) b a
+        | .reject => "TREE FAIL import:reject"
+        | .outside => "TREE FAIL import:outside"
+    | _, _, _ => "TREE FAIL malformed-stream"
+
+end TreeStream
+
 def intStr (i : Int) : String := toString i
 
 def tgtOf (ts : Nat) : B64.Tgt := { cells := List.replicate ts 170 }
@@ -212,6 +335,31 @@ def step (s : St) (line : String) : St × String :=
           | none => (s, "bad-op"))
        | _ => (s, "bad-op"))
     | _, _, _ => (s, "bad-op")
+  | "TB" :: _ => ({ s with te := [], tos := [], trs := [], tbad := false }, ".")
+  | ["TE", d, tag, raw, ct] =>
+    (match parseNat d, parseHexBytes tag, parseHexBytes raw, parseHexOpt ct with
+     | some d, some tag, some raw, some ct =>
+       ({ s with te := (d, Hw.XmlTree.Elem.mk tag (scanAttrs (raw.length + 1) raw) ct []) :: s.te }, ".")
+     | _, _, _, _ => ({ s with tbad := true }, "bad-op"))
+  | "TO" :: rest =>
+    (match parseTreeObj rest with
+     | some x => ({ s with tos := x :: s.tos }, ".")
+     | none => ({ s with tbad := true }, "bad-op"))
+  | "TR" :: rest =>
+    (match parseTreeObj rest with
+     | some x => ({ s with trs := x :: s.trs }, ".")
+     | none => ({ s with tbad := true }, "bad-op"))
+  | ["TM", _, st] =>
+    let v := if s.tbad then "TMUT FAIL unparsable-line" else
+      match buildElems s.te.reverse with
+      | [(0, e)] =>
+        (match Hw.XmlTree.importTree e with
+         | .reject => if st = "0" then "TMUT FAIL the-model-rejects-a-document-that-hwloc-loads" else "TMUT ok reject/" ++ st
+         | .ok _ => "TMUT ok accept/" ++ st
+         | .outside => "TMUT ok outside/" ++ st)
+      | _ => "TMUT FAIL malformed-stream"
+    ({ s with te := [] }, v)
+  | ["TJ"] => ({ s with te := [], tos := [], trs := [] }, judgeTree s)
   | "CASE" :: _ => ({}, ".")
   | "OP" :: _ => (s, ".")
   | ["RT"] => (s, ".")
